@@ -165,7 +165,7 @@ static void run_case(CaseCtx& c)
     };
     Vector<double> u_lib = run_lib(scratch_kind);
     std::string cls = std::string(use_extrap_cycle ? "extrapolated" : "plain") + "/" + (type == 0 ? "V" : (type == 1 ? "W" : "F"));
-    double un = 1.0, d = 0;
+    double un = data_scale, d = 0; // floor of the normalisation scales with the data
     bool finite = true, bitexact = true;
     for (int k = 0; k < n; k++) {
         un = std::max(un, std::fabs(u_ref[k]));
